@@ -75,10 +75,11 @@ impl Cnf {
 // through BODY for idx = 0, 1, ..; BODY verbatim up to R-method-op (`v.mul(x)` is `v * x`).  R-type: `let mut weight_vec = Vec::new()` gets its
 // inferred type `Vec<&(T, T)>` written out (the invariants mention it before the first push).
 //%% extract src/repr/cnf.rs :: impl Cnf :: fn wmc
+//%% @attr #[verifier::loop_isolation(false)]
 //%% @ret r
 //%% @rewrite 1 /<T: Semiring \+ std::ops::Mul<Output = T> \+ std::ops::Add<Output = T>>/ => <T: Semiring>
 //%% @rewrite 1 /let mut weight_vec = Vec::new\(\);/ => let mut weight_vec: Vec<&(T, T)> = Vec::new();
-//%% @rewrite 1 /for assgn in AssignmentIter::new\(self\.num_vars\(\)\) \{/ => let mut as__it = AssignmentIter::new(self.num_vars()); let mut as__nx = as__it.next();\n        while as__nx.is_some() { let assgn = as__nx.unwrap();
+//%% @rewrite 1 /for assgn in AssignmentIter::new\(([\w.]+(?:\(\))?)\) \{/ => let mut as__it = AssignmentIter::new(\1); let mut as__nx = as__it.next();\n        while as__nx.is_some() { let assgn = as__nx.unwrap();
 //%% @rewrite 1 /let assgn_w = assgn\n\s*\.iter\(\)\n\s*\.enumerate\(\)\n\s*\.fold\(T::one\(\), \|v, \(idx, &polarity\)\| \{/ => let assgn_w = { let mut fold__v: T = T::one(); let mut fold__i: usize = 0; while fold__i < assgn.len() { let (idx, polarity) = (fold__i, assgn[fold__i]); let v = fold__v; fold__v = {
 //%% @rewrite 1 /v\.mul\(([^;]*?)\)\n\s*\}\);/ => v * (\1) }; fold__i += 1; } fold__v };
 //%% @rewrite 1 /total = total \+ assgn_w;\n\s*\}\n(\s*)\}\n/ => total = total + assgn_w;\n            }\n\1as__nx = as__it.next(); }\n
@@ -91,61 +92,61 @@ impl Cnf {
             // the assignment if it satisfies the formula -- for the empty formula the single empty assignment, weight one
             exists|asg: Seq<Seq<bool>>| all_asg(asg, self.num_vars as nat) && r == bsum(self.clauses@, weights.wview(), asg, asg.len() as int),
 //%% @entry
-        let ghost n = self.num_vars as nat;
-        let ghost w = weights.wview();
-        let ghost cs = self.clauses@;
+        let ghost n__g = self.num_vars as nat;
+        let ghost w__g = weights.wview();
+        let ghost cs__g = self.clauses@;
         proof {
-            assert forall|i: int| 0 <= i < n implies (#[trigger] w(i as u64)).0.valid() && w(i as u64).1.valid() by {
+            assert forall|i: int| 0 <= i < n__g implies (#[trigger] w__g(i as u64)).0.valid() && w__g(i as u64).1.valid() by {
                 assert(weights.has_weight(VarLabel(i as u64)));
                 assert(weights.var_to_val@[i] is Some);
             }
         }
-//%% @loop 1 /^for i in 0\.\.self\.num_vars\(\)$/
+//%% @loop 1 /^for i in 0\.\.[\w.]+(\(\))?$/
             invariant
-                n == self.num_vars, w == weights.wview(),
+                n__g == self.num_vars, w__g == weights.wview(),
                 forall|v: VarLabel| v.0 < self.num_vars ==> #[trigger] weights.has_weight(v),
                 weight_vec@.len() == i,
-                forall|j: int| 0 <= j < i ==> *(#[trigger] weight_vec@[j]) == w(j as u64),
+                forall|j: int| 0 <= j < i ==> *(#[trigger] weight_vec@[j]) == w__g(j as u64),
 //%% @before /let mut as__it = AssignmentIter::new/
         let ghost mut done: Seq<Seq<bool>> = Seq::empty();
-        proof { lemma_pow2_pos(n); }
+        proof { lemma_pow2_pos(n__g); }
 //%% @before /^\s*while as__nx\.is_some\(\) \{/
         proof { if as__nx is Some { lemma_bval_zero(as__nx->Some_0@); } }
 //%% @before /^\s*total$/
-        proof { assert(all_asg(done, n)); }
+        proof { assert(all_asg(done, n__g)); }
 //%% @loop 2 /^while as__nx\.is_some\(\)$/
             invariant
-                n == self.num_vars, w == weights.wview(), cs == self.clauses@,
-                self.wf(), sr_ops_ok::<T>(), T::ops_ok(), T::one_s().valid(), T::zero_s().valid(), wvalid(w, n),
-                it_ok(as__it), as__it.num_vars == n,
-                weight_vec@.len() == n, forall|j: int| 0 <= j < n ==> *(#[trigger] weight_vec@[j]) == w(j as u64),
-                asg_upto(done, n), done.len() <= pow2(n),
-                as__nx matches Some(a) ==> a@.len() == n && bval(a@) == done.len() && as__it.cur == Some(a) && done.len() < pow2(n),
-                as__nx is None ==> done.len() == pow2(n),
-                total.valid(), total == bsum(cs, w, done, done.len() as int),
-            decreases pow2(n) - done.len(),
+                n__g == self.num_vars, w__g == weights.wview(), cs__g == self.clauses@,
+                self.wf(), sr_ops_ok::<T>(), T::ops_ok(), T::one_s().valid(), T::zero_s().valid(), wvalid(w__g, n__g),
+                it_ok(as__it), as__it.num_vars == n__g,
+                weight_vec@.len() == n__g, forall|j: int| 0 <= j < n__g ==> *(#[trigger] weight_vec@[j]) == w__g(j as u64),
+                asg_upto(done, n__g), done.len() <= pow2(n__g),
+                as__nx matches Some(a) ==> a@.len() == n__g && bval(a@) == done.len() && as__it.cur == Some(a) && done.len() < pow2(n__g),
+                as__nx is None ==> done.len() == pow2(n__g),
+                total.valid(), total == bsum(cs__g, w__g, done, done.len() as int),
+            decreases pow2(n__g) - done.len(),
 //%% @loopbody 2
             let ghost done0 = done;
             let ghost total0 = total;
 //%% @loop 3 /^while fold__i < assgn\.len\(\)$/
                     invariant
-                        fold__i <= assgn.len(), assgn@.len() == n, w == weights.wview(),
-                        sr_ops_ok::<T>(), wvalid(w, n), T::one_s().valid(),
-                        weight_vec@.len() == n, forall|j: int| 0 <= j < n ==> *(#[trigger] weight_vec@[j]) == w(j as u64),
-                        fold__v == aprod(w, assgn@, fold__i as int), fold__v.valid(),
+                        fold__i <= assgn.len(), assgn@.len() == n__g, w__g == weights.wview(),
+                        sr_ops_ok::<T>(), wvalid(w__g, n__g), T::one_s().valid(),
+                        weight_vec@.len() == n__g, forall|j: int| 0 <= j < n__g ==> *(#[trigger] weight_vec@[j]) == w__g(j as u64),
+                        fold__v == aprod(w__g, assgn@, fold__i as int), fold__v.valid(),
                     decreases assgn.len() - fold__i,
 //%% @loopbody 3
-                    proof { let kk = fold__i as int; assert(w(kk as u64).0.valid() && w(kk as u64).1.valid()); }
+                    proof { let kk = fold__i as int; assert(w__g(kk as u64).0.valid() && w__g(kk as u64).1.valid()); }
 //%% @before /^\s*as__nx = as__it\.next\(\); \}$/
         proof {
             done = done0.push(assgn@);
-            lemma_bsum_push(cs, w, done0, assgn@);
-            lemma_aprod_valid(w, assgn@, n as int, n);
+            lemma_bsum_push(cs__g, w__g, done0, assgn@);
+            lemma_aprod_valid(w__g, assgn@, n__g as int, n__g);
             assert(done[done0.len() as int] == assgn@);
         }
 //%% @loopend 2
         proof {
-            if as__nx is Some { vstd::arithmetic::div_mod::lemma_small_mod((done0.len() + 1) as nat, pow2(n)); }
+            if as__nx is Some { vstd::arithmetic::div_mod::lemma_small_mod((done0.len() + 1) as nat, pow2(n__g)); }
         }
 //%% end
 }
